@@ -63,3 +63,5 @@ add("F33","C06","fixed","torn-entry-returns-wrong-data","tape cut exactly where 
 addfile("F35","C11","fixed","data-race",
     "two goroutines using one open file: Sync/Close replaced the file's info struct under the lock while Write/Read/Truncate/... looked at f.info.IsDir() before taking it (race detector: write in syncWithoutLocking, read in File.Write); found when the free-running -race mode started to honour shared handles",
     commit="a file shared by several goroutines no longer has a data race")
+add("F36","C08","fixed","read-content-not-signed","the size field of the (unsigned) outer tar header of a content record set to 0 with the tar checksum recomputed, pgp encryption: the PGP decryptor fails with a bare io.EOF, File.Read's restore goroutine handed that to the pipe with CloseWithError(io.EOF) = regular end of stream: the reader got an empty file without error instead of the signed content",
+    ops=[{"k":"mkdir","p":"/d","m":0o755},{"k":"writefile","p":"/d/f","d":D(1,1)}], cfg_=cfg(enc="pgp",sig="minisign"), params={"enumerate":0,"a0":3,"a1":0,"a2":0}, sparams={"alt":"outer-size"}, commit="a restore that fails with io.EOF is not a clean end of file")
